@@ -118,7 +118,8 @@ pub fn apply_filters<IntT: for<'a> UInt<'a>>(
     ignore_const_gaps: bool,
 ) -> i32 {
     let update_kmers = false;
-    let filter_threshold = f64::ceil(ska_array.nsamples() as f64 * min_freq) as usize;
+    // Tolerance for binary representation error, e.g. 25.0 * 0.28 = 7.000000000000001
+    let filter_threshold = f64::ceil(ska_array.nsamples() as f64 * min_freq - 1e-9) as usize;
     log::info!("Applying filters: threshold={filter_threshold} constant_site_filter={filter} filter_ambig_as_missing={filter_ambig_as_missing} ambig_mask={ambig_mask} no_gap_only_sites={ignore_const_gaps}");
     ska_array.filter(
         filter_threshold,
